@@ -1,3 +1,97 @@
-(* C10 - ds.List behaves exactly like a reference doubly-linked list. Statements only. (work in progress) *)
-From Coq Require Import ZArith List.
-From Verif.C10_List Require Import Model.
+(* C10 - ds.List behaves exactly like a reference doubly-linked list (container/list). Statements only. *)
+From Coq Require Import ZArith List Bool.
+From Verif.C10_List Require Import Model Ring Proofs.
+Import ListNotations.
+Close Scope Z_scope.
+
+(* Full statement: for EVERY history h of the twelve mutating calls in which no call passes a handle that
+   Init orphaned (zombie_free), the pointer-level model of ds/list_impl.go never panics, returns what the
+   container/list contract (astep: sequences of element ids per list) returns at every call, and ends in a
+   state that represents (R) the contract's state. *)
+Definition C10_refines_full_statement : Prop := forall h,
+  zombie_free ainit h = true ->
+  exists st', run init_state h = Some (st', snd (arun ainit h)) /\ R st' (fst (arun ainit h)).
+
+(* Proved for all histories over Init, PushFront, PushBack, Remove, InsertBefore, InsertAfter, MoveToFront and
+   MoveAfter ([covered]); MoveToBack, MoveBefore, PushBackList and PushFrontList are tied to container/list
+   by the correspondence check only (see notes/C10.md). *)
+Theorem C10_refines_partial : forall h,
+  forallb covered h = true -> zombie_free ainit h = true ->
+  exists st', run init_state h = Some (st', snd (arun ainit h)) /\ R st' (fst (arun ainit h)).
+Proof. intros h. exact (run_refines h init_state ainit R_init). Qed.
+
+Example C10_refines_nonvacuous :
+  forallb covered sample_history = true /\ zombie_free ainit sample_history = true.
+Proof. exact sample_history_ok. Qed.
+
+(* One call from any represented state (the induction step), for any covered call and non-orphaned handles. *)
+Theorem C10_step_refines : forall st a o,
+  R st a -> covered o = true -> existsb (is_orphan a) (handles o) = false ->
+  exists st', step st o = Some (st', snd (astep a o)) /\ R st' (fst (astep a o)).
+Proof. exact step_refines. Qed.
+
+(* In every represented state the observations are those of the contract: Len, Front and the forward value
+   sequence (Values/Range/ForEach) of every list ... *)
+Theorem C10_observations : forall st a l, R st a ->
+  len st l = Z.of_nat (length (alist a l)) /\
+  front st l = hd_ptr (alist a l) /\
+  values st l = map (aval a) (alist a l).
+Proof. exact obs_refines. Qed.
+
+(* ... and Prev/Next are nil on every handle that is in no list (removed or never inserted). *)
+Theorem C10_removed_handle_nil : forall st a n,
+  R st a -> ~ In n (aorph a) -> (forall l, ~ In n (alist a l)) ->
+  elem_next st (El n) = None /\ elem_prev st (El n) = None.
+Proof. exact removed_handle_nil. Qed.
+
+(* Foreign / removed handles: every call of list l given a handle that is not a member of l (member of another
+   list, removed, never inserted, a sentinel) changes nothing and returns nil / the handle's value. *)
+Theorem C10_foreign_noop : forall st a l p,
+  R st a -> is_orphan a p = false -> hmem p (alist a l) = None ->
+  step st (Remove l p) = Some (st, OVal (aval_of a p)) /\
+  (forall v, step st (InsertBefore l v p) = Some (st, OHandle None)) /\
+  (forall v, step st (InsertAfter l v p) = Some (st, OHandle None)) /\
+  step st (MoveToFront l p) = Some (st, ONone) /\
+  step st (MoveToBack l p) = Some (st, ONone) /\
+  (forall q, step st (MoveBefore l p q) = Some (st, ONone) /\ step st (MoveBefore l q p) = Some (st, ONone) /\
+             step st (MoveAfter l p q) = Some (st, ONone) /\ step st (MoveAfter l q p) = Some (st, ONone)).
+Proof. exact foreign_noop. Qed.
+
+Example C10_foreign_nonvacuous :
+  exists st, run init_state [PushBack 0 1%Z; PushBack 1 2%Z] = Some (st, [OHandle (Some (El 0)); OHandle (Some (El 1))]) /\
+             hmem (El 1) (alist (fst (arun ainit [PushBack 0 1%Z; PushBack 1 2%Z])) 0) = None.
+Proof. eexists; split; vm_compute; reflexivity. Qed.
+
+(* Move semantics (after fix eae1e74): MoveAfter(e, m) with both in list l and e <> m puts e right behind m
+   (general theorem = the MoveAfter case of C10_step_refines); the D10a regression history [1 2 3],
+   MoveBefore(c, a) gives [3 1 2] and MoveAfter(a, c) gives [2 3 1], forwards and backwards ... *)
+Theorem C10_move :
+  option_map (fun s => (values s 0, values_rev s 0)) (run_with step init_state d10a_before) = Some ([3; 1; 2], [2; 1; 3])%Z /\
+  option_map (fun s => (values s 0, values_rev s 0)) (run_with step init_state d10a_after) = Some ([2; 3; 1], [1; 3; 2])%Z.
+Proof. exact d10a_fixed. Qed.
+
+(* ... while the pinned code (position taken from the element argument) left [1 2 3] (D10a). *)
+Theorem C10_refuted_move_pinned :
+  option_map (fun s => values s 0) (run_with step_pinned init_state d10a_before) = Some [1; 2; 3]%Z /\
+  option_map (fun s => values s 0) (run_with step_pinned init_state d10a_after) = Some [1; 2; 3]%Z.
+Proof. exact d10a_pinned. Qed.
+
+(* Thread-safe flavour, sequential callers: after fix d8bfa53 no call blocks and every call does exactly what
+   the lock-free flavour does ... *)
+Theorem C10_ts_equals_plain : forall st o, step_ts st o = Done (step st o).
+Proof. exact ts_equals_plain. Qed.
+
+(* ... while the pinned wrapper deadlocks on l.PushBackList(l) / l.PushFrontList(l) in every state (D10b). *)
+Theorem C10_refuted_selfpush_pinned : forall st l,
+  step_ts_pinned st (PushBackList l l) = Deadlock /\ step_ts_pinned st (PushFrontList l l) = Deadlock.
+Proof. exact selfpush_deadlock_pinned. Qed.
+
+Print Assumptions C10_refines_partial.
+Print Assumptions C10_step_refines.
+Print Assumptions C10_observations.
+Print Assumptions C10_removed_handle_nil.
+Print Assumptions C10_foreign_noop.
+Print Assumptions C10_move.
+Print Assumptions C10_refuted_move_pinned.
+Print Assumptions C10_ts_equals_plain.
+Print Assumptions C10_refuted_selfpush_pinned.
